@@ -46,7 +46,9 @@ func c15Rules(dir, file string) []c15Rule {
 }
 
 var c15Msgs = []string{"【必填】姓名不能为空", "“姓名”不能为空", "（必填）", "≥18 岁", "café 菜单", "①必填", "see the explain: column of the form", "年龄说明: 应该在 1-3 之间", "rate must be <= 100%", "折扣需在 5%-50% 之间", "%s %d %v", "ends with semicolon;", "必须正确;", "two trailing;;", "trailing blank ", "must be ok", "必须正确", "age 必须 ok", "x", "必", "a=b", "a|b", "'a,b'", "'必须,正确'", "msg_17",
-	"level must be one of (low/mid/high)", "(x)", "a) b (c", "颜色需包含 (red/blue) 之一", " - starts with a blank", "  两个空格开头", " x"}
+	"level must be one of (low/mid/high)", "(x)", "a) b (c", "颜色需包含 (red/blue) 之一", " - starts with a blank", "  两个空格开头", " x",
+	// the first and the last ideograph of the range that selects the Chinese label, alone
+	"pick 一 of a/b/c", "ends with 龥", "一", "龥x", "㐀 and 龦 are outside"}
 
 func init() {
 	core.Register(&core.Prop{
@@ -205,6 +207,50 @@ func runC15(c *core.Ctx) {
 					}
 					if cl := cls[0]; cl.Label != clause.LabelFor(msg) || cl.Text != msg {
 						res.Violate("C15|message|"+key+"|message-not-verbatim|long-value|"+cr, fmt.Sprintf("%s: %q on a %d-byte value returned %s; want explanation %q", cr, text, len(val), trunc(out.String(), 300), clause.LabelFor(msg)+" "+msg), wit)
+					}
+				}
+			}
+		}
+	}
+
+	// ---- (A5) a rule with a message FOLLOWED by a rule without one on the same field: each clause
+	// has the wording of its own rule (no message is carried over to the next rule)
+	a5 := 0
+	for _, r := range rules {
+		if r.Key == "required" || r.Key == "file" || r.Key == "dir" {
+			continue
+		}
+		for mi, msg := range c15Msgs {
+			if mi%4 != 0 || strings.Contains(msg, ",") {
+				continue
+			}
+			for _, cr := range []string{drive.StructRM, drive.StructTag, drive.StructCtx, drive.Var, drive.MapT} {
+				a5++
+				if !c.Mine(a5) {
+					continue
+				}
+				// (i) empty value: only the bare required fires, with the default wording
+				text := r.Text + "|" + msg + ",required"
+				out, ok := drive.Carry(cr, reflect.ValueOf(""), text)
+				if ok {
+					res.Eval()
+					res.DistinctEnum(1)
+					res.Count("message_then_bare_rule_cases")
+					cls := clause.Parse(out.Err)
+					wit := map[string]string{"carrier": cr, "rule": text, "value": "", "library_returned": out.String()}
+					if out.Panic != "" || out.Nil || len(cls) != 1 || cls[0].Text == msg || cls[0].Text == "" || cls[0].Label != clause.LabelEn {
+						res.Violate("C15|message|"+r.Key+"|carried-over-to-next-rule|"+cr, fmt.Sprintf("%s: %q on an empty value returned %s; want exactly one clause, the default wording of required under the English label", cr, text, out), wit)
+					}
+				}
+				// (ii) failing value: the rule's clause carries its message, the bare to=99~100 behind it its default wording
+				text2 := r.Text + "|" + msg + ",eq=77"
+				out2, ok2 := drive.Carry(cr, reflect.ValueOf(r.Fail), text2)
+				if ok2 && r.Fail != "" {
+					res.Eval()
+					cls := clause.Parse(out2.Err)
+					wit := map[string]string{"carrier": cr, "rule": text2, "value": r.Fail, "library_returned": out2.String()}
+					if out2.Panic != "" || out2.Nil || len(cls) != 2 || cls[0].Text != msg || cls[1].Text == msg || cls[1].Text == "" {
+						res.Violate("C15|message|"+r.Key+"|two-rules-two-wordings|"+cr, fmt.Sprintf("%s: %q on %q returned %s; want the message on the first clause and the default wording on the second", cr, text2, r.Fail, out2), wit)
 					}
 				}
 			}
